@@ -31,13 +31,14 @@ def to_smt2(pc: list, goal) -> str:
     return s.to_smt2()
 
 
-def _run_z3(smt2: str, timeout_ms: int, seed: int) -> tuple[str, str, str]:
+def _run_z3(smt2: str, timeout_ms: int, seed: int, mbqi: bool = False) -> tuple[str, str, str]:
     s = z3.Solver()
     s.set("timeout", timeout_ms)
     s.set("random_seed", seed)
     # proofs go through E-matching instantiation; model-based instantiation makes
-    # quantified queries diverge.  Counter-models come from pyvc/refute.py instead.
-    s.set("smt.mbqi", False)
+    # quantified queries diverge.  It is tried afterwards, briefly, because it can
+    # produce genuine counter-models (sat) for refuted obligations.
+    s.set("smt.mbqi", mbqi)
     try:
         s.from_string(smt2)
     except z3.Z3Exception as e:
@@ -115,6 +116,10 @@ def _work(item) -> Result:
             return Result(oid, "unsat", "z3", time.time() - t0, "", "proved from the quantifier-free hypotheses")
     st, model, reason = _run_z3(smt2, timeout_ms, seed)
     backend = "z3"
+    if st == "unknown":
+        st_m, model_m, _ = _run_z3(smt2, min(timeout_ms, 4000), seed, mbqi=True)
+        if st_m != "unknown":
+            st, model, reason = st_m, model_m, "decided with model-based quantifier instantiation"
     if st == "unknown":
         st2, m2, r2 = _run_cvc5(smt2, timeout_ms)
         if st2 != "unknown":
